@@ -14,6 +14,7 @@ CXXFLAGS = BASEFLAGS + M512
 
 def flags_for(arch):
     if arch.startswith('emu'): return BASEFLAGS + M256
+    if arch == 'scalar': return BASEFLAGS + ['-march=alderlake', '-mno-avx512f']
     return BASEFLAGS + (M512 if ARCH[arch][2] == 512 else M256)
 
 # tag, C++ spelling, register bits, can the host execute it
@@ -32,6 +33,8 @@ ARCHS = [
     ('avx512vnni_avx512vbmi2', 'xsimd::avx512vnni<xsimd::avx512vbmi2>', 512, True),
 ]
 ARCH = {a[0]: a for a in ARCHS}
+# pseudo-architecture for the scalar overloads of xsimd_scalar.hpp (C17): built with the 256-bit flag set, no batch involved
+ARCH['scalar'] = ('scalar', 'xsimd::sse2', 128, True)
 # a small set that exercises every distinct kernel file at least once (quick tier of expensive properties)
 CORE_ARCHS = ['sse2', 'ssse3', 'sse4_1', 'sse4_2', 'fma3_sse4_2', 'avx', 'fma3_avx', 'avx2', 'fma3_avx2', 'avx512f', 'avx512dq', 'avx512bw', 'avx512vbmi', 'avx512vbmi2']
 ALL_ARCHS = [a[0] for a in ARCHS]
@@ -90,6 +93,7 @@ class Kernel:
             elif kind == 's': ps.append('int %s' % n)
             elif kind == 'z': ps.append('uint64_t %s' % n)
             elif kind == 'T': ps.append('%s %s' % (TYPES[ty][0], n))
+            elif kind == 'b': ps.append('bool %s' % n)
             elif kind == 'p': ps.append('%s* %s' % (TYPES[ty][0] if ty in TYPES else ty, n))
             elif kind == 'q': ps.append('%s const* %s' % (TYPES[ty][0] if ty in TYPES else ty, n))
             elif kind == 'x': ps.append(ty)
